@@ -103,7 +103,7 @@ func exerciseC20(r *Run, s subject, maxSeq int) int {
 	for _, m := range ms {
 		seqs = append(seqs, []int{m})
 	}
-	for k := 0; k < r.N(6, 60); k++ {
+	for k := 0; k < r.N(6, 30); k++ {
 		l := 2 + r.Rng.Intn(maxSeq-1)
 		var sq []int
 		for j := 0; j < l; j++ {
@@ -158,7 +158,7 @@ func genC20pass(r *Run) int {
 	evals := 0
 	maxSeq := r.N(3, 6)
 	// ---- DHCPv4 packets: generated and decoded
-	for i := 0; i < r.N(120, 6000); i++ {
+	for i := 0; i < r.N(120, 2000); i++ {
 		var p *dhcpv4.DHCPv4
 		w := r.v4WithTypedOptions()
 		if i%2 == 0 {
@@ -189,7 +189,7 @@ func genC20pass(r *Run) int {
 		evals += exerciseC20(r, subject{"dhcpv4.Options " + trunc(hx(w), 200), reflect.ValueOf(p.Options), p.ToBytes, nil}, maxSeq)
 	}
 	// ---- standalone DHCPv4 option values built by the exported constructors
-	for i := 0; i < r.N(150, 8000); i++ {
+	for i := 0; i < r.N(150, 2500); i++ {
 		codes := []dhcpv4.OptionCode{}
 		for _, c := range r.Bytes(1 + r.Rng.Intn(6)) {
 			l := dhcpv4.OptionCodeList{}
@@ -230,7 +230,7 @@ func genC20pass(r *Run) int {
 		evals++
 	}
 	// ---- DHCPv6 messages, their options, standalone option values
-	for i := 0; i < r.N(150, 8000); i++ {
+	for i := 0; i < r.N(150, 2500); i++ {
 		m, w := r.genMsg(r.Pick(1, 2), r.Pick(2, 5))
 		if i%2 == 0 {
 			if d, err := dhcpv6.FromBytes(w); err == nil {
@@ -251,7 +251,7 @@ func genC20pass(r *Run) int {
 	}
 	// messages that repeat an option the accessors expect once (two or three requested-option lists with
 	// different codes, several client ids, IA_NAs, status codes ...): accessors that merge or pick must not write back
-	for i := 0; i < r.N(120, 6000); i++ {
+	for i := 0; i < r.N(120, 2000); i++ {
 		m6, _ := dhcpv6.NewMessage()
 		m6.TransactionID = dhcpv6.TransactionID{9, byte(i >> 8), byte(i)}
 		m6.MessageType = dhcpv6.MessageType(1 + r.Rng.Intn(11))
@@ -279,13 +279,13 @@ func genC20pass(r *Run) int {
 			evals += exerciseC20(r, subject{"MessageOptions of " + what, reflect.ValueOf(mm.Options), s6.ToBytes, func() string { return dumpLine(dumpMsg(s6)) }}, maxSeq)
 		}
 	}
-	for i := 0; i < r.N(100, 5000); i++ {
+	for i := 0; i < r.N(100, 1500); i++ {
 		nd := r.genOptCode(knownV6Codes[r.Rng.Intn(len(knownV6Codes))], 1)
 		o := nd.opt
 		evals += exerciseC20(r, subject{fmt.Sprintf("dhcpv6 constructed option %d", o.Code()), reflect.ValueOf(o), func() []byte { return safeToBytes(o) }, func() string { return dumpLine(dumpOpt(o)) }}, maxSeq)
 	}
 	// label sets and DUIDs
-	for i := 0; i < r.N(100, 5000); i++ {
+	for i := 0; i < r.N(100, 1500); i++ {
 		names, w := r.validNames()
 		l := &rfc1035label.Labels{Labels: names}
 		if i%2 == 0 {
